@@ -1,6 +1,6 @@
 from driver import Unit
 LEVEL = "other"
-HARNESS_FILES = ["verif_poly.rs"]
+HARNESS_FILES = ["verif_poly.rs", "verif_bmoc.rs"]
 P = "nested::verif_poly::"
 MANIFEST = dict(
     category="other",
